@@ -7,6 +7,7 @@ package c19
 
 import (
 	"bufio"
+	"bytes"
 	"encoding/json"
 	"fmt"
 	"os"
@@ -35,6 +36,10 @@ type wireCase struct {
 	Pass int    `json:"pass"`           // index into the passphrase table
 	Pas2 int    `json:"pass2"`          // chain: passphrase of the import
 	Msg  []byte `json:"msg"`            // message to sign
+	// Prior: chain: what already exists at the import destination (ImportPrivateKey is documented to overwrite):
+	// 0 nothing, 1 the source key file pretty-printed (valid and longer than what the import writes), 2 the source key
+	// file followed by 64 stray bytes, 3 a two-byte file, 4 an exact copy of the source key file
+	Prior int `json:"prior,omitempty"`
 }
 
 type wireMsg struct {
@@ -256,6 +261,25 @@ func runCase(dir string, passes [][]byte, c *wireCase) caseObs {
 		out.Steps = append(out.Steps, ex)
 		if !ex.OK {
 			return out
+		}
+		if c.Prior > 0 {
+			src, _ := os.ReadFile(keyFile(da))
+			var prior []byte
+			switch c.Prior {
+			case 1:
+				var buf bytes.Buffer
+				if json.Indent(&buf, src, "", "    ") == nil {
+					prior = buf.Bytes()
+				}
+			case 2:
+				prior = append(append([]byte{}, src...), bytes.Repeat([]byte("#"), 64)...)
+			case 3:
+				prior = []byte("{}")
+			default:
+				prior = src
+			}
+			_ = os.MkdirAll(db, 0o700)
+			_ = os.WriteFile(keyFile(db), prior, 0o600)
 		}
 		im := guarded("import", func(o *stepObs) {
 			if err := file.ImportPrivateKey(db, cp(ex.Priv), cp(q)); err != nil {
